@@ -15,8 +15,8 @@ CHUNK = 2
 RULE = ("ops = {fun, grad, fun_and_grad} x points {a, b, c, a' (equal to a, other object and "
         "dtype), a~ (4 ulps from a)} + {scale:=1, scale:=2.5} + {caller overwrites the array it last passed} + {the next user-function call "
         "raises and the caller goes on}; "
-        "user functions scribble on their argument; modes callable, 2-point, 3-point, cs "
-        "(with bounds); model = one memo cell (point, has_f, has_g) and a scale; BFS over "
+        "user functions scribble on their argument and return a float, or (BFS and all histories to depth 3) one reused 0-d / 1-element array; modes callable, 2-point, 3-point, cs "
+        "(with bounds), and (BFS + depth 3) jac=None with eps=1e-4, 2-point / 3-point with finite_diff_rel_step=1e-3; model = one memo cell (point, has_f, has_g) and a scale; BFS over "
         "all model states x 20 ops with every edge executed on a fresh real ScalarFunction "
         "by replaying the state's shortest history, and ALL histories to depth 4 (quick) / "
         "depth 5 over all 20 ops in 4 modes and depth 6 over the 15 call ops in callable mode (thorough, first variant; depth 4 under the other variants); oracle per step: "
@@ -58,9 +58,21 @@ def Gv(x):
 LB, UB = np.array([-3.0, -3.0]), np.array([3.0, 3.0])
 
 
+# option letters of the finite-difference modes: jac=None with an absolute step `eps`, named
+# schemes with a user relative step (documented semantics: h = eps, resp.
+# h = rel_step * sign(x) * max(1, |x|))
+OPTMODES = {"none@eps1e-4": (None, dict(epsilon=1e-4), dict(method="2-point", abs_step=1e-4)),
+            "2-point@rel1e-3": ("2-point", dict(finite_diff_rel_step=1e-3),
+                                dict(method="2-point", rel_step=1e-3)),
+            "3-point@rel1e-3": ("3-point", dict(finite_diff_rel_step=1e-3),
+                                dict(method="3-point", rel_step=1e-3))}
+
+
 def fd_ref(mode, x):
     from scipy.optimize._numdiff import approx_derivative
     kw = dict(method=mode, rel_step=None, abs_step=None, bounds=(LB, UB))
+    if mode in OPTMODES:
+        kw = dict(dict(rel_step=None, abs_step=None, bounds=(LB, UB)), **OPTMODES[mode][2])
     return approx_derivative(lambda z: Fv(z), np.asarray(x, float), f0=Fv(np.asarray(x, float)), **kw)
 
 
@@ -88,13 +100,16 @@ def model_step(state, op, arg, mode):
     return (cell, hf, hg, sc), ef, eg
 
 
-def execute(hist, mode, v):
-    """Run a history on a fresh real object; returns (errors, impl abstract state or None)."""
+def execute(hist, mode, v, ret="float"):
+    """Run a history on a fresh real object; returns (errors, impl abstract state or None).
+    ret: how the user's objective hands its value back - a float, or one preallocated
+    0-d / 1-element array refilled and returned at every call (buf0 / buf1)."""
     from lbfgsb.scalar_function import prepare_scalar_function
     P = pts(v)
     log = []
 
     armed = [False]
+    retbuf = np.zeros(() if ret == "buf0" else (1,))
 
     class Boom(Exception):
         pass
@@ -107,6 +122,9 @@ def execute(hist, mode, v):
         log.append(("f", xc))
         if np.isrealobj(x):
             x[...] = 123.0       # hostile but legal: scribble on the argument
+            if ret != "float":
+                retbuf[...] = Fv(xc)
+                return retbuf
         return Fv(xc)
 
     def jac(x):
@@ -117,8 +135,12 @@ def execute(hist, mode, v):
         log.append(("g", xc))
         x[...] = 321.0
         return Gv(xc)
-    sf = prepare_scalar_function(fun, P["a"].copy(), jac=jac if mode == "callable" else mode,
-                                 bounds=(LB, UB), epsilon=1e-8)
+    if mode in OPTMODES:
+        sf = prepare_scalar_function(fun, P["a"].copy(), jac=OPTMODES[mode][0],
+                                     bounds=(LB, UB), **dict(dict(epsilon=1e-8), **OPTMODES[mode][1]))
+    else:
+        sf = prepare_scalar_function(fun, P["a"].copy(), jac=jac if mode == "callable" else mode,
+                                     bounds=(LB, UB), epsilon=1e-8)
     state = ("a", False, False, 1.0)
     last = None
     errs = []
@@ -215,8 +237,20 @@ def execute(hist, mode, v):
 
 def cases(tier, variants):
     for v in variants:
+        for mode in OPTMODES:
+            yield dict(part="bfs", var=v, mode=mode)
+            for i in range(len(OPS)):
+                for j in range(len(OPS)):
+                    yield dict(part="hist", var=v, mode=mode, pre=[i, j], depth=3, alpha="all")
         for mode in MODES:
             yield dict(part="bfs", var=v, mode=mode)
+            # user letter: the objective returns one reused 0-d / 1-element array
+            for rt in ("buf0", "buf1"):
+                yield dict(part="bfs", var=v, mode=mode, ret=rt)
+                for i in range(len(OPS)):
+                    for j in range(len(OPS)):
+                        yield dict(part="hist", var=v, mode=mode, pre=[i, j], depth=3,
+                                   alpha="all", ret=rt)
             if tier == "quick":
                 for i in range(len(OPS)):
                     for j in range(len(OPS)):
@@ -248,9 +282,10 @@ def nontrivial(hist):
 
 def run(case):
     mode, v = case["mode"], case["var"]
+    rt = case.get("ret", "float")
     if case["part"] == "hist1":
         hist = [OPS[i] for i in case["h"]]
-        errs, impl, st = execute(hist, mode, v)
+        errs, impl, st = execute(hist, mode, v, rt)
         viol = [V(s, step=k, **d) for k, s, d in errs]
         if impl is not None and impl != st:
             viol.append(V("model_state_mismatch", impl=impl, model=st))
@@ -265,9 +300,9 @@ def run(case):
             for oi, (op, arg) in enumerate(OPS):
                 h = seen[st] + [oi]
                 hist = [OPS[i] for i in h]
-                errs, impl, mst = execute(hist, mode, v)
+                errs, impl, mst = execute(hist, mode, v, rt)
                 trans += 1
-                sub = dict(part="hist1", var=v, mode=mode, h=h)
+                sub = dict(part="hist1", var=v, mode=mode, h=h, ret=rt)
                 for k, s, d in errs:
                     viol.append(V(s, _case=sub, step=k, **d))
                 if impl is not None and impl != mst:
@@ -276,7 +311,7 @@ def run(case):
                     seen[mst] = h
                     frontier.append(mst)
         return dict(viol=viol[:20], n_exec=trans,
-                    nontrivial=dict(keys=[f"{mode}-{v}-{s}" for s in seen]),
+                    nontrivial=dict(keys=[f"{mode}-{rt}-{v}-{s}" for s in seen]),
                     outcomes={f"bfs_{mode}": 1},
                     mc=dict(states=len(seen), transitions=trans, validated=trans),
                     stats={"bfs_states": len(seen), "bfs_transitions": trans})
@@ -286,16 +321,16 @@ def run(case):
     for L in range(0, case["depth"] - 1):
         for tail in itertools.product(range(len(alpha)), repeat=L):
             hist = pre + [alpha[i] for i in tail]
-            errs, impl, mst = execute(hist, mode, v)
+            errs, impl, mst = execute(hist, mode, v, rt)
             nex += 1
             h = [OPS.index(o) for o in hist]
-            sub = dict(part="hist1", var=v, mode=mode, h=h)
+            sub = dict(part="hist1", var=v, mode=mode, h=h, ret=rt)
             for k, s, d in errs:
                 viol.append(V(s, _case=sub, step=k, **d))
             if impl is not None and impl != mst:
                 viol.append(V("model_state_mismatch", _case=sub, impl=impl, model=mst))
             if nontrivial(hist):
-                keys.append(f"{mode}-{v}-{'.'.join(map(str, h))}")
+                keys.append(f"{mode}-{rt}-{v}-{'.'.join(map(str, h))}")
             if len(viol) > 40:
                 break
     return dict(viol=viol[:20], nontrivial=dict(keys=keys), n_exec=nex,
